@@ -8,7 +8,7 @@
                         depends only on the final key-value map
      batch_eq_sequential        UpdateBatch = updateSequential, for every
                         application order of the per-nibble groups *)
-From GV Require Import Lib.Tactics Trie.Hex Trie.HexProofs Trie.Node Trie.Ops Trie.Hash Trie.OpsProofs.
+From GV Require Import Lib.Tactics Rlp.Codec Trie.Hex Trie.HexProofs Trie.Node Trie.Ops Trie.Hash Trie.OpsProofs.
 Local Open Scope N_scope.
 
 Definition canon (n : node) : Prop := n = NEmpty \/ can n.
@@ -215,3 +215,762 @@ Proof.
   - destruct (can_has_key _ Ha) as (k & v & Hk & L). rewrite (He _ Hk), lk_empty in L. discriminate.
   - apply can_unique; assumption.
 Qed.
+
+(* ------------------------------------------------------------------ histories and their final map *)
+
+Definition bytes_key (k : list N) : Prop := forallb byteb k = true.
+
+(* the value an update leaves under its key: empty value = deletion *)
+Definition vopt (v : list N) : option (list N) := match v with [] => None | _ :: _ => Some v end.
+
+Definition put (m : list N -> option (list N)) (k v : list N) : list N -> option (list N) :=
+  fun k' => if bytes_eqb k' k then vopt v else m k'.
+
+Fixpoint apply_ops (m : list N -> option (list N)) (ops : list (list N * list N))
+  : list N -> option (list N) :=
+  match ops with
+  | [] => m
+  | (k, v) :: r => apply_ops (put m k v) r
+  end.
+
+(* the key-value map a history of updates denotes (last write wins) *)
+Definition final_map (ops : list (list N * list N)) : list N -> option (list N) :=
+  apply_ops (fun _ => None) ops.
+
+Definition hexops (ops : list (list N * list N)) : list (list N * list N) :=
+  map (fun kv => (keybytes_to_hex (fst kv), snd kv)) ops.
+
+Definition bytes_ops (ops : list (list N * list N)) : Prop :=
+  Forall (fun kv => bytes_key (fst kv)) ops.
+
+Lemma hex_inj k1 k2 : bytes_key k1 -> bytes_key k2 ->
+  keybytes_to_hex k1 = keybytes_to_hex k2 -> k1 = k2.
+Proof.
+  intros H1 H2 E. pose proof (keybytes_hex _ H1) as E1. pose proof (keybytes_hex _ H2) as E2.
+  rewrite E in E1. congruence.
+Qed.
+
+Lemma hex_eqb k1 k2 : bytes_key k1 -> bytes_key k2 ->
+  bytes_eqb (keybytes_to_hex k1) (keybytes_to_hex k2) = bytes_eqb k1 k2.
+Proof.
+  intros H1 H2. destruct (bytes_eqb k1 k2) eqn:B.
+  - apply bytes_eqb_eq in B. subst. apply bytes_eqb_refl.
+  - destruct (bytes_eqb (keybytes_to_hex k1) (keybytes_to_hex k2)) eqn:B'; [|reflexivity].
+    apply bytes_eqb_eq in B'. apply hex_inj in B'; try assumption. subst.
+    rewrite bytes_eqb_refl in B. discriminate.
+Qed.
+
+Lemma apply_ops_notin ops : forall m k, ~ In k (map fst ops) -> apply_ops m ops k = m k.
+Proof.
+  induction ops as [|[k0 v0] ops IH]; intros m k Hn; [reflexivity|]. simpl in *.
+  rewrite IH by tauto. unfold put. destruct (bytes_eqb k k0) eqn:B; [|reflexivity].
+  apply bytes_eqb_eq in B. subst. tauto.
+Qed.
+
+Lemma apply_ops_hex ops : bytes_ops ops -> forall m mh k, bytes_key k ->
+  mh (keybytes_to_hex k) = m k ->
+  apply_ops mh (hexops ops) (keybytes_to_hex k) = apply_ops m ops k.
+Proof.
+  induction 1 as [|[k0 v0] ops Hk0 Hops IH]; intros m mh k Hk E; [exact E|]. simpl.
+  apply IH; [assumption|]. unfold put. simpl in Hk0. rewrite hex_eqb by assumption. rewrite E. reflexivity.
+Qed.
+
+Lemma final_map_hex_eq ops1 ops2 : bytes_ops ops1 -> bytes_ops ops2 ->
+  (forall k, final_map ops1 k = final_map ops2 k) ->
+  forall hk, apply_ops (fun _ => None) (hexops ops1) hk = apply_ops (fun _ => None) (hexops ops2) hk.
+Proof.
+  intros B1 B2 He hk.
+  destruct (in_dec (list_eq_dec N.eq_dec) hk (map fst (hexops (ops1 ++ ops2)))) as [Hin|Hnin].
+  - apply in_map_iff in Hin as ([hk' v] & E & Hin). simpl in E. subst hk'.
+    apply in_map_iff in Hin as ([k v'] & E & Hin). simpl in E. inversion E; subst.
+    assert (Hk : bytes_key k).
+    { assert (Hall : bytes_ops (ops1 ++ ops2)) by (apply Forall_app; auto).
+      unfold bytes_ops in Hall. rewrite Forall_forall in Hall. apply (Hall _ Hin). }
+    rewrite (apply_ops_hex ops1 B1 (fun _ => None) (fun _ => None) k Hk eq_refl).
+    rewrite (apply_ops_hex ops2 B2 (fun _ => None) (fun _ => None) k Hk eq_refl).
+    apply He.
+  - unfold hexops in Hnin. rewrite map_app, map_app in Hnin. rewrite in_app_iff in Hnin.
+    rewrite !apply_ops_notin; [reflexivity| |]; intros Hin; apply Hnin; [right|left]; exact Hin.
+Qed.
+
+(* ------------------------------------------------------------------ update and histories on canonical tries *)
+
+Lemma canon_wfn t : canon t -> wfn t.
+Proof. intros [->|H]; [constructor|apply can_wfn; exact H]. Qed.
+
+Lemma ops_fuel_ok k : (length k < ops_fuel k)%nat.
+Proof. unfold ops_fuel. lia. Qed.
+
+Section Canon.
+  Variable resolve : list N -> list N -> option (node * list N).
+
+  (* Trie.update on a canonical trie with a byte key *)
+  Lemma update_hex_spec t hk v : canon t -> valid_key hk ->
+    exists t' ev,
+      (match v with
+       | [] => match delete resolve (ops_fuel hk) t [] hk with
+               | TOk (_, n, ev) => TOk (n, ev) | TErr e => TErr e end
+       | _ :: _ => match insert resolve (ops_fuel hk) t [] hk (NValue v) with
+                   | TOk (_, n, ev) => TOk (n, ev) | TErr e => TErr e end
+       end) = TOk (t', ev) /\
+      canon t' /\ lk t' hk = vopt v /\ (forall k', k' <> hk -> lk t' k' = lk t k').
+  Proof.
+    intros Hc Hk.
+    assert (Hp : wfpos t hk) by (right; split; [assumption|apply canon_wfn; assumption]).
+    assert (Hcp : canpos t hk) by (right; split; assumption).
+    destruct v as [|b v].
+    - destruct (delete_spec resolve _ t [] hk (ops_fuel_ok hk) Hp)
+        as (d & t' & ev & E & Q1 & Q2 & Q3 & Q4 & Q5 & Q6 & Q7).
+      rewrite E. exists t', ev. split; [reflexivity|]. split; [|split; assumption].
+      destruct (Q6 Hcp) as [[-> _]|[_ ?]]; [destruct Hk|assumption].
+    - destruct (insert_spec resolve _ t [] hk (b :: v) (ops_fuel_ok hk) Hp)
+        as (d & t' & ev & E & P1 & P2 & P3 & P4 & P5 & P6 & P7 & P8).
+      rewrite E. exists t', ev. split; [reflexivity|]. split; [|split; assumption].
+      destruct (P7 Hcp) as [[-> _]|[_ ?]]; [destruct Hk|assumption].
+  Qed.
+
+  Lemma update_spec t k v : canon t -> bytes_key k ->
+    exists t' ev, update resolve t k v = TOk (t', ev) /\ canon t' /\
+      lk t' (keybytes_to_hex k) = vopt v /\
+      (forall hk, hk <> keybytes_to_hex k -> lk t' hk = lk t hk).
+  Proof.
+    intros Hc Hk. unfold update. cbv zeta.
+    destruct (update_hex_spec t (keybytes_to_hex k) v Hc (keybytes_to_hex_valid _ Hk))
+      as (t' & ev & E & R).
+    exists t', ev. split; [|exact R]. destruct v; exact E.
+  Qed.
+
+  Lemma update_seq_spec ops : bytes_ops ops -> forall t m, canon t ->
+    (forall hk, lk t hk = m hk) ->
+    exists t' ev, update_seq resolve t ops = TOk (t', ev) /\ canon t' /\
+      forall hk, lk t' hk = apply_ops m (hexops ops) hk.
+  Proof.
+    induction 1 as [|[k v] ops Hk Hops IH]; intros t m Hc Hm.
+    - exists t, []. split; [reflexivity|]. split; assumption.
+    - simpl in Hk. destruct (update_spec t k v Hc Hk) as (t1 & ev1 & E1 & Hc1 & L1 & L2).
+      destruct (IH t1 (put m (keybytes_to_hex k) v) Hc1) as (t2 & ev2 & E2 & Hc2 & L3).
+      { intros hk. unfold put. destruct (bytes_eqb hk (keybytes_to_hex k)) eqn:B.
+        - apply bytes_eqb_eq in B. subst. exact L1.
+        - rewrite L2; [apply Hm|]. intros ->. rewrite bytes_eqb_refl in B. discriminate. }
+      cbn [update_seq]. rewrite E1, E2. exists t2, (ev1 ++ ev2). split; [reflexivity|].
+      split; [assumption|]. exact L3.
+  Qed.
+
+  (* (e) the trie built by a history depends only on its final map *)
+  Theorem root_depends_only_on_set ops1 ops2 :
+    bytes_ops ops1 -> bytes_ops ops2 ->
+    (forall k, final_map ops1 k = final_map ops2 k) ->
+    exists t ev1 ev2,
+      update_seq resolve NEmpty ops1 = TOk (t, ev1) /\
+      update_seq resolve NEmpty ops2 = TOk (t, ev2) /\
+      canon t /\
+      (forall k, bytes_key k -> lk t (keybytes_to_hex k) = final_map ops1 k) /\
+      (forall k, bytes_key k -> trie_get resolve t k = TOk (final_map ops1 k, t, false, [])).
+  Proof.
+    intros B1 B2 He.
+    destruct (update_seq_spec ops1 B1 NEmpty (fun _ => None) (or_introl eq_refl) (fun hk => lk_empty hk))
+      as (t1 & ev1 & E1 & C1 & L1).
+    destruct (update_seq_spec ops2 B2 NEmpty (fun _ => None) (or_introl eq_refl) (fun hk => lk_empty hk))
+      as (t2 & ev2 & E2 & C2 & L2).
+    assert (t1 = t2).
+    { apply canon_unique; [assumption|assumption|]. intros k _. rewrite L1, L2.
+      apply final_map_hex_eq; assumption. }
+    subst t2. exists t1, ev1, ev2. split; [assumption|]. split; [assumption|]. split; [assumption|].
+    assert (HL : forall k, bytes_key k -> lk t1 (keybytes_to_hex k) = final_map ops1 k).
+    { intros k Hk. rewrite L1. apply (apply_ops_hex ops1 B1 (fun _ => None) (fun _ => None) k Hk eq_refl). }
+    split; [exact HL|]. intros k Hk. unfold trie_get. cbv zeta.
+    rewrite get_lk; [rewrite (HL k Hk); reflexivity|apply ops_fuel_ok|].
+    right. split; [apply keybytes_to_hex_valid; assumption|apply canon_wfn; assumption].
+  Qed.
+
+  (* ... hence so does the root hash, for ANY hash function *)
+  Corollary root_hash_depends_only_on_set (H : list N -> list N) ops1 ops2 t1 ev1 t2 ev2 :
+    bytes_ops ops1 -> bytes_ops ops2 ->
+    (forall k, final_map ops1 k = final_map ops2 k) ->
+    update_seq resolve NEmpty ops1 = TOk (t1, ev1) ->
+    update_seq resolve NEmpty ops2 = TOk (t2, ev2) ->
+    t1 = t2 /\ hash_root H t1 = hash_root H t2.
+  Proof.
+    intros B1 B2 He E1 E2.
+    destruct (root_depends_only_on_set ops1 ops2 B1 B2 He) as (t & e1 & e2 & F1 & F2 & _).
+    rewrite F1 in E1. rewrite F2 in E2. inversion E1; inversion E2; subst. split; reflexivity.
+  Qed.
+End Canon.
+
+(* ------------------------------------------------------------------ (f) UpdateBatch = updateSequential *)
+
+Lemma apply_ops_ext ops : forall m m', (forall k, m k = m' k) ->
+  forall k, apply_ops m ops k = apply_ops m' ops k.
+Proof.
+  induction ops as [|[k0 v0] ops IH]; intros m m' He k; [apply He|]. simpl.
+  apply IH. intros k'. unfold put. rewrite He. reflexivity.
+Qed.
+
+(* what may sit in slot [pos] of a canonical full node *)
+Definition canslot (pos : N) (c : node) : Prop :=
+  (pos = 16 /\ vslot c) \/ (pos < 16 /\ (c = NEmpty \/ can c)).
+
+Lemma canslot_canpos pos c kr : canslot pos c -> valid_key (pos :: kr) -> canpos c kr.
+Proof.
+  intros Hs Hk. apply valid_key_cons in Hk as [[-> ->]|[Hp Hk]].
+  - destruct Hs as [[_ ?]|[? _]]; [left; auto|lia].
+  - destruct Hs as [[-> _]|[_ ?]]; [lia|right; auto].
+Qed.
+
+Lemma canpos_canslot pos c kr : canpos c kr -> valid_key (pos :: kr) -> canslot pos c.
+Proof.
+  intros Hs Hk. apply valid_key_cons in Hk as [[-> ->]|[Hp Hk]].
+  - destruct Hs as [[_ ?]|[[] _]]. left; auto.
+  - destruct Hs as [[-> _]|[_ ?]]; [destruct Hk|right; auto].
+Qed.
+
+Lemma can_full_slot cs pos c :
+  can (NFull cs) -> nth_error cs (N.to_nat pos) = Some c -> pos <= 16 -> canslot pos c.
+Proof.
+  intros H Hc Hp. destruct (can_full_inv _ H) as (HL & Hch & H16 & _).
+  destruct (N.eq_dec pos 16) as [->|Np].
+  - left. split; [reflexivity|]. apply H16. exact Hc.
+  - right. split; [lia|]. apply (Hch _ _ Hc). lia.
+Qed.
+
+Definition tlkeys (G : list (list N * list N)) : list (list N * list N) :=
+  map (fun kv => (tl (fst kv), snd kv)) G.
+
+Definition group_ok (pos : N) (G : list (list N * list N)) : Prop :=
+  Forall (fun kv => exists kr, fst kv = pos :: kr /\ valid_key (pos :: kr)) G.
+
+Lemma group_by_nibble_ok pos hkvs :
+  Forall (fun kv => valid_key (fst kv)) hkvs -> group_ok pos (group_by_nibble pos hkvs).
+Proof.
+  intros H. unfold group_ok, group_by_nibble. apply Forall_forall. intros [hk v] Hin.
+  apply filter_In in Hin as [Hin Hf]. rewrite Forall_forall in H. specialize (H _ Hin). simpl in *.
+  destruct hk as [|k0 kr]; [discriminate|]. apply N.eqb_eq in Hf. subst. eauto.
+Qed.
+
+(* lookups under nibble x only see the group of x *)
+Lemma apply_ops_group x ops : Forall (fun kv => fst kv <> []) ops ->
+  forall m m' r, m (x :: r) = m' r ->
+  apply_ops m ops (x :: r) = apply_ops m' (tlkeys (group_by_nibble x ops)) r.
+Proof.
+  induction 1 as [|[k0 v0] ops Hk0 Hops IH]; intros m m' r E; [exact E|].
+  simpl in Hk0. destruct k0 as [|y k0]; [congruence|]. simpl.
+  destruct (N.eqb_spec y x) as [->|Ny].
+  - simpl. apply IH. unfold put. simpl. rewrite N.eqb_refl. simpl. rewrite E. reflexivity.
+  - apply IH. unfold put. simpl. destruct (N.eqb_spec x y); [congruence|]. simpl. exact E.
+Qed.
+
+Lemma filter_ge_1 {A} (p : A -> bool) l : (1 <= length (filter p l))%nat ->
+  exists i a, nth_error l i = Some a /\ p a = true.
+Proof.
+  induction l as [|x l IH]; simpl; intros H; [lia|]. destruct (p x) eqn:Px.
+  - exists O, x. auto.
+  - destruct (IH H) as (i & a & ? & ?). exists (S i), a. auto.
+Qed.
+
+Lemma filter_ge_2 {A} (p : A -> bool) l : (2 <= length (filter p l))%nat ->
+  exists i j a b, i <> j /\ nth_error l i = Some a /\ p a = true /\
+                  nth_error l j = Some b /\ p b = true.
+Proof.
+  induction l as [|x l IH]; simpl; intros H; [lia|]. destruct (p x) eqn:Px.
+  - simpl in H. destruct (filter_ge_1 p l ltac:(lia)) as (j & b & Hj & Pb).
+    exists O, (S j), x, b. repeat split; auto.
+  - destruct (IH H) as (i & j & a & b & Hd & Hi & Pa & Hj & Pb).
+    exists (S i), (S j), a, b. repeat split; auto.
+Qed.
+
+Lemma combine_idx_nth n : forall s (cs : list node) i a c,
+  nth_error (combine (map N.of_nat (seq s n)) cs) i = Some (a, c) ->
+  a = N.of_nat (s + i) /\ nth_error cs i = Some c.
+Proof.
+  induction n as [|n IH]; intros s cs i a c H; simpl in H; [destruct i; discriminate|].
+  destruct cs as [|c0 cs]; [destruct i; discriminate|]. destruct i as [|i]; simpl in H.
+  - inversion H; subst. split; [f_equal; lia|reflexivity].
+  - destruct (IH _ _ _ _ _ H) as [-> ?]. split; [f_equal; lia|assumption].
+Qed.
+
+Lemma count_ge_1 cs j cj : nth_error cs j = Some cj -> cj <> NEmpty -> (1 <= count cs)%nat.
+Proof.
+  revert j; induction cs as [|c cs IH]; intros [|j] H Hne; simpl in H; try discriminate; rewrite count_cons.
+  - inversion H; subst. destruct cj; simpl; try lia. congruence.
+  - specialize (IH _ H Hne). lia.
+Qed.
+
+Lemma count_two cs : forall i j ci cj, i <> j ->
+  nth_error cs i = Some ci -> ci <> NEmpty -> nth_error cs j = Some cj -> cj <> NEmpty ->
+  (2 <= count cs)%nat.
+Proof.
+  induction cs as [|c cs IH]; intros i j ci cj Hd Hi Hci Hj Hcj; [destruct i; discriminate|].
+  rewrite count_cons. destruct i as [|i], j as [|j]; simpl in Hi, Hj; try congruence.
+  - inversion Hi; subst. pose proof (count_ge_1 _ _ _ Hj Hcj). destruct ci; simpl; try lia. congruence.
+  - inversion Hj; subst. pose proof (count_ge_1 _ _ _ Hi Hci). destruct cj; simpl; try lia. congruence.
+  - assert (i <> j) by congruence. specialize (IH _ _ _ _ H Hi Hci Hj Hcj). lia.
+Qed.
+
+Section Batch.
+  Variable resolve : list N -> list N -> option (node * list N).
+
+  (* one goroutine: its group applied to its child *)
+  Lemma apply_group_spec pos : forall G c, group_ok pos G -> canslot pos c ->
+    exists c' ev, apply_group resolve c pos G = TOk (c', ev) /\ canslot pos c' /\
+      (forall r, lk c' r = apply_ops (lk c) (tlkeys G) r) /\
+      (Forall (fun kv => snd kv <> []) G -> c <> NEmpty -> c' <> NEmpty).
+  Proof.
+    induction G as [|[hk v] G IH]; intros c HG Hc.
+    - exists c, []. simpl. auto.
+    - inversion HG as [|? ? (kr & Ehk & Hv) HG']; subst. simpl in Ehk. subst hk.
+      pose proof (canslot_canpos _ _ _ Hc Hv) as Hcp. pose proof (canpos_wfpos _ _ Hcp) as Hwp.
+      assert (Hfuel : (length kr < ops_fuel (pos :: kr))%nat) by (unfold ops_fuel; simpl; lia).
+      cbn [apply_group tl]. destruct v as [|b v].
+      + destruct (delete_spec resolve _ c [pos] kr Hfuel Hwp)
+          as (d & c1 & ev1 & E & Q1 & Q2 & Q3 & Q4 & Q5 & Q6 & Q7).
+        rewrite E. destruct (IH c1 HG' (canpos_canslot _ _ _ (Q6 Hcp) Hv)) as (c2 & ev2 & E2 & S2 & L2 & N2).
+        rewrite E2. exists c2, (ev1 ++ ev2). split; [reflexivity|]. split; [assumption|]. split.
+        * intros r. rewrite L2. simpl. apply apply_ops_ext. intros r'. unfold put. simpl.
+          destruct (bytes_eqb r' kr) eqn:B.
+          -- apply bytes_eqb_eq in B. subst. exact Q2.
+          -- apply Q3. intros ->. rewrite bytes_eqb_refl in B. discriminate.
+        * intros Hnd. inversion Hnd; subst. simpl in *. congruence.
+      + destruct (insert_spec resolve _ c [pos] kr (b :: v) Hfuel Hwp)
+          as (d & c1 & ev1 & E & P1 & P2 & P3 & P4 & P5 & P6 & P7 & P8).
+        rewrite E. destruct (IH c1 HG' (canpos_canslot _ _ _ (P7 Hcp) Hv)) as (c2 & ev2 & E2 & S2 & L2 & N2).
+        rewrite E2. exists c2, (ev1 ++ ev2). split; [reflexivity|]. split; [assumption|]. split.
+        * intros r. rewrite L2. simpl. apply apply_ops_ext. intros r'. unfold put. simpl.
+          destruct (bytes_eqb r' kr) eqn:B.
+          -- apply bytes_eqb_eq in B. subst. exact P3.
+          -- apply P4. intros ->. rewrite bytes_eqb_refl in B. discriminate.
+        * intros Hnd _. inversion Hnd; subst. auto.
+  Qed.
+
+  Section Fold.
+    Variable cs : list node.
+    Variable hkvs : list (list N * list N).
+    Hypothesis Hcs : can (NFull cs).
+    Hypothesis Hkeys : Forall (fun kv => valid_key (fst kv)) hkvs.
+
+    Definition GP (pos : N) (c c' : node) : Prop :=
+      canslot pos c' /\
+      (forall r, lk c' r = apply_ops (lk c) (tlkeys (group_by_nibble pos hkvs)) r) /\
+      (Forall (fun kv => snd kv <> []) (group_by_nibble pos hkvs) -> c <> NEmpty -> c' <> NEmpty).
+
+    Variable F : tres (node * list tev) -> N -> tres (node * list tev).
+    Hypothesis HF : forall cs0 ev0 pos,
+      F (TOk (NFull cs0, ev0)) pos =
+      match child cs0 pos with
+      | None => TErr EPanic
+      | Some c =>
+          match apply_group resolve c pos (group_by_nibble pos hkvs) with
+          | TErr e => TErr e
+          | TOk (c', ev) =>
+              match set_child cs0 pos c' with
+              | Some cs1 => TOk (NFull cs1, ev0 ++ ev)
+              | None => TErr EPanic
+              end
+          end
+      end.
+
+    Lemma batch_fold : forall order cs0 ev0,
+      NoDup order -> Forall (fun p => p <= 16) order -> length cs0 = 17%nat ->
+      (forall pos, In pos order -> nth_error cs0 (N.to_nat pos) = nth_error cs (N.to_nat pos)) ->
+      exists cs1 ev1,
+        fold_left F order (TOk (NFull cs0, ev0)) = TOk (NFull cs1, ev1) /\
+        length cs1 = 17%nat /\
+        (forall i, ~ In (N.of_nat i) order -> nth_error cs1 i = nth_error cs0 i) /\
+        (forall pos, In pos order -> exists c c',
+           nth_error cs (N.to_nat pos) = Some c /\ nth_error cs1 (N.to_nat pos) = Some c' /\ GP pos c c').
+    Proof.
+      destruct (can_full_inv _ Hcs) as (HLcs & _).
+      induction order as [|pos rest IH]; intros cs0 ev0 Hnd Hle HL0 Horig.
+      - exists cs0, ev0. simpl. split; [reflexivity|]. split; [assumption|]. split; [auto|]. intros ? [].
+      - simpl fold_left. rewrite HF.
+        inversion Hnd as [|? ? Hnotin Hnd']; subst. inversion Hle as [|? ? Hp Hle']; subst.
+        pose proof (Horig pos (or_introl eq_refl)) as E0.
+        destruct (nth_error cs (N.to_nat pos)) as [c|] eqn:Ec; [|apply nth_error_None in Ec; lia].
+        unfold child. rewrite E0.
+        pose proof (can_full_slot _ _ _ Hcs Ec Hp) as Hslot.
+        destruct (apply_group_spec pos _ c (group_by_nibble_ok pos hkvs Hkeys) Hslot)
+          as (c' & ev & E & S & L & Nn).
+        rewrite E. unfold set_child.
+        destruct (set_nth_some (N.to_nat pos) c' cs0) as [cs0' Hs]; [lia|]. rewrite Hs.
+        destruct (set_nth_spec _ _ _ _ Hs) as [L0 Hn0].
+        destruct (IH cs0' (ev0 ++ ev) Hnd' Hle' ltac:(lia)) as (cs1 & ev1 & EF & L1 & U1 & G1).
+        { intros p Hp'. rewrite Hn0. destruct (Nat.eqb_spec (N.to_nat p) (N.to_nat pos)) as [e|].
+          - assert (p = pos) by lia. subst. contradiction.
+          - apply Horig. right. assumption. }
+        exists cs1, ev1. split; [exact EF|]. split; [assumption|]. split.
+        + intros i Hni. rewrite U1 by (intros Hin; apply Hni; right; exact Hin). rewrite Hn0.
+          destruct (Nat.eqb_spec i (N.to_nat pos)); [|reflexivity].
+          subst. exfalso. apply Hni. left. rewrite N2Nat.id. reflexivity.
+        + intros p [<-|Hp'].
+          * exists c, c'. split; [exact Ec|]. split; [|repeat split; assumption].
+            rewrite U1 by (rewrite N2Nat.id; exact Hnotin). rewrite Hn0, Nat.eqb_refl. reflexivity.
+          * apply G1. exact Hp'.
+    Qed.
+  End Fold.
+
+  (* (f) for every application order of the per-nibble groups — any duplicate-free
+     list of positions <= 16 containing every populated first nibble — UpdateBatch
+     on a canonical trie succeeds and yields exactly the trie updateSequential
+     yields (the tracer events may be ordered differently). *)
+  Theorem batch_eq_sequential order t kvs :
+    canon t -> bytes_ops kvs ->
+    NoDup order -> Forall (fun p => p <= 16) order ->
+    (forall kv, In kv kvs -> In (hd 0 (keybytes_to_hex (fst kv))) order) ->
+    exists t' ev ev',
+      update_batch resolve order t kvs = TOk (t', ev) /\
+      update_seq resolve t kvs = TOk (t', ev') /\ canon t'.
+  Proof.
+    intros Hc HB Hnd Hle Hpop.
+    destruct (update_seq_spec resolve kvs HB t (lk t) Hc (fun _ => eq_refl))
+      as (ts & evs & Es & Cs & Ls).
+    unfold update_batch.
+    destruct t as [| | |cs|]; try (exists ts, evs, evs; repeat split; assumption).
+    destruct (Nat.ltb (length kvs) parallel_update_threshold); [exists ts, evs, evs; repeat split; assumption|].
+    fold (hexops kvs).
+    match goal with |- context [Nat.ltb ?s 2] => destruct (Nat.ltb s 2) eqn:Hsurv end;
+      [exists ts, evs, evs; repeat split; assumption|].
+    apply Nat.ltb_ge in Hsurv.
+    destruct Hc as [Hc|Hc]; [discriminate|].
+    destruct (can_full_inv _ Hc) as (HLcs & Hch & H16 & _).
+    assert (Hkeys : Forall (fun kv => valid_key (fst kv)) (hexops kvs)).
+    { unfold hexops. apply Forall_map. simpl. unfold bytes_ops in HB.
+      eapply Forall_impl; [|exact HB]. intros kv Hk. apply keybytes_to_hex_valid. exact Hk. }
+    match goal with |- context [fold_left ?f order _] =>
+      destruct (batch_fold cs (hexops kvs) Hc Hkeys f (fun _ _ _ => eq_refl) order cs [] Hnd Hle HLcs
+                  (fun _ _ => eq_refl)) as (cs1 & ev1 & EF & L1 & U1 & G1)
+    end.
+    rewrite EF.
+    (* every slot of the result satisfies the group postcondition *)
+    assert (Hall : forall i c, nth_error cs i = Some c -> exists c',
+              nth_error cs1 i = Some c' /\ GP (hexops kvs) (N.of_nat i) c c').
+    { intros i c Hi.
+      assert (Hi17 : (i < 17)%nat) by (rewrite <- HLcs; apply nth_error_Some; congruence).
+      destruct (in_dec N.eq_dec (N.of_nat i) order) as [Hin|Hnin].
+      - destruct (G1 _ Hin) as (c0 & c' & E0 & E1 & HG). rewrite Nat2N.id in E0, E1.
+        exists c'. split; [assumption|]. congruence.
+      - exists c. split; [rewrite U1 by assumption; exact Hi|].
+        assert (Hg : group_by_nibble (N.of_nat i) (hexops kvs) = []).
+        { unfold group_by_nibble. destruct (filter _ (hexops kvs)) as [|[hk v] G] eqn:Ef; [reflexivity|].
+          exfalso. assert (Hin : In (hk, v) (filter (fun kv => match fst kv with
+                                      | k0 :: _ => N.eqb k0 (N.of_nat i) | [] => false end) (hexops kvs)))
+            by (rewrite Ef; left; reflexivity).
+          apply filter_In in Hin as [Hin Hf]. unfold hexops in Hin. apply in_map_iff in Hin as (kv & E & Hin).
+          inversion E; subst. apply Hnin. specialize (Hpop _ Hin). simpl in Hf.
+          destruct (keybytes_to_hex (fst kv)); [discriminate|]. apply N.eqb_eq in Hf. subst. exact Hpop. }
+        unfold GP. rewrite Hg. split; [apply (can_full_slot cs); [assumption|rewrite Nat2N.id; assumption|lia]|].
+        split; [reflexivity|auto]. }
+    assert (Hcan1 : can (NFull cs1)).
+    { apply can_full; [assumption| | |].
+      - intros i c' Hc' Hi16. destruct (nth_error cs i) as [c|] eqn:Ei; [|apply nth_error_None in Ei; lia].
+        destruct (Hall _ _ Ei) as (c'' & E1 & [[[? _]|[_ ?]] _]); [lia|congruence].
+      - intros c' Hc'. destruct (nth_error cs 16) as [c|] eqn:Ei; [|apply nth_error_None in Ei; lia].
+        destruct (Hall _ _ Ei) as (c'' & E1 & [[[_ ?]|[? _]] _]); [congruence|simpl in *; lia].
+      - destruct (filter_ge_2 _ _ Hsurv) as (i & j & [ai ci] & [aj cj] & Hd & Hi & Pi & Hj & Pj).
+        apply combine_idx_nth in Hi as [-> Hi]. apply combine_idx_nth in Hj as [-> Hj]. simpl in *.
+        apply andb_true_iff in Pi as [Pi1 Pi2]. apply andb_true_iff in Pj as [Pj1 Pj2].
+        assert (Hnodel : forall i0, negb (existsb (fun kv => match fst kv, snd kv with
+                            | k0 :: _, [] => N.eqb k0 (N.of_nat i0) | _, _ => false end) (hexops kvs)) = true ->
+                  Forall (fun kv => snd kv <> []) (group_by_nibble (N.of_nat i0) (hexops kvs))).
+        { intros i0 Hne. apply negb_true_iff in Hne. apply Forall_forall. intros [hk v] Hin Hv.
+          unfold group_by_nibble in Hin. apply filter_In in Hin as [Hin Hf]. simpl in *. subst v.
+          assert (Hex : existsb (fun kv => match fst kv, snd kv with
+                            | k0 :: _, [] => N.eqb k0 (N.of_nat i0) | _, _ => false end) (hexops kvs) = true).
+          { apply existsb_exists. exists (hk, []). split; [assumption|]. simpl. destruct hk; [discriminate|exact Hf]. }
+          congruence. }
+        destruct (Hall _ _ Hi) as (ci' & Ei' & _ & _ & Ni). destruct (Hall _ _ Hj) as (cj' & Ej' & _ & _ & Nj).
+        apply (count_two cs1 i j ci' cj' Hd Ei'); [|exact Ej'|].
+        + apply Ni; [apply Hnodel; exact Pi2|]. destruct ci; simpl in Pi1; congruence.
+        + apply Nj; [apply Hnodel; exact Pj2|]. destruct cj; simpl in Pj1; congruence. }
+    assert (NFull cs1 = ts).
+    { apply canon_unique; [right; assumption|assumption|]. intros hk Hk. rewrite Ls.
+      destruct hk as [|x r]; [destruct Hk|].
+      pose proof (valid_key_hd_le _ _ Hk) as Hx.
+      destruct (nth_error cs (N.to_nat x)) as [c|] eqn:Ec; [|apply nth_error_None in Ec; lia].
+      destruct (Hall _ _ Ec) as (c' & E1 & _ & Hlk & _). rewrite N2Nat.id in Hlk.
+      rewrite lk_full, E1, Hlk. symmetry. apply apply_ops_group.
+      - eapply Forall_impl; [|exact Hkeys]. intros kv Hv. apply valid_key_nonempty. exact Hv.
+      - rewrite lk_full, Ec. reflexivity. }
+    subst ts. exists (NFull cs1), ev1, evs. auto.
+  Qed.
+End Batch.
+
+(* ------------------------------------------------------------------ histories mixing single updates and batches *)
+
+Inductive hop : Type :=
+| HUpd (k v : list N)                                        (* Trie.Update / Delete *)
+| HBatch (order : list N) (kvs : list (list N * list N)).    (* Trie.UpdateBatch, groups applied in [order] *)
+
+Definition order_ok (order : list N) (kvs : list (list N * list N)) : Prop :=
+  NoDup order /\ Forall (fun p => p <= 16) order /\
+  (forall kv, In kv kvs -> In (hd 0 (keybytes_to_hex (fst kv))) order).
+
+Definition hop_ok (h : hop) : Prop :=
+  match h with
+  | HUpd k _ => bytes_key k
+  | HBatch order kvs => bytes_ops kvs /\ order_ok order kvs
+  end.
+
+Definition hop_kvs (h : hop) : list (list N * list N) :=
+  match h with HUpd k v => [(k, v)] | HBatch _ kvs => kvs end.
+
+Section Hist.
+  Variable resolve : list N -> list N -> option (node * list N).
+
+  Fixpoint run_hist (t : node) (hs : list hop) : tres node :=
+    match hs with
+    | [] => TOk t
+    | HUpd k v :: r =>
+        match update resolve t k v with TOk (t', _) => run_hist t' r | TErr e => TErr e end
+    | HBatch order kvs :: r =>
+        match update_batch resolve order t kvs with TOk (t', _) => run_hist t' r | TErr e => TErr e end
+    end.
+
+  Lemma update_seq_app_ok a : forall t t1 e1 b t2 e2,
+    update_seq resolve t a = TOk (t1, e1) -> update_seq resolve t1 b = TOk (t2, e2) ->
+    update_seq resolve t (a ++ b) = TOk (t2, e1 ++ e2).
+  Proof.
+    induction a as [|[k v] a IH]; intros t t1 e1 b t2 e2 Ea Eb.
+    - simpl in Ea. inversion Ea; subst. exact Eb.
+    - simpl in Ea. simpl. destruct (update resolve t k v) as [[t0 e0]|]; [|discriminate].
+      destruct (update_seq resolve t0 a) as [[t1' e1']|] eqn:E; [|discriminate]. inversion Ea; subst.
+      rewrite (IH _ _ _ _ _ _ E Eb). rewrite app_assoc. reflexivity.
+  Qed.
+
+  Lemma hist_bytes_ops hs : Forall hop_ok hs -> bytes_ops (flat_map hop_kvs hs).
+  Proof.
+    induction 1 as [|h hs Hh Hhs IH]; [constructor|]. simpl. apply Forall_app. split; [|exact IH].
+    destruct h; simpl in *; [repeat constructor; assumption|tauto].
+  Qed.
+
+  (* any history of updates and batches (each batch under any admissible
+     application order) produces the trie the flattened sequential history does *)
+  Theorem history_eq_sequential hs : Forall hop_ok hs -> forall t, canon t ->
+    exists t' ev, run_hist t hs = TOk t' /\
+      update_seq resolve t (flat_map hop_kvs hs) = TOk (t', ev) /\ canon t'.
+  Proof.
+    induction 1 as [|h hs Hh Hhs IH]; intros t Hc.
+    - exists t, []. simpl. auto.
+    - destruct h as [k v|order kvs]; simpl in Hh.
+      + destruct (update_spec resolve t k v Hc Hh) as (t1 & ev1 & E1 & C1 & _).
+        destruct (IH t1 C1) as (t2 & ev2 & R2 & S2 & C2).
+        exists t2, (ev1 ++ ev2). cbn [run_hist flat_map hop_kvs app update_seq]. rewrite E1, S2. auto.
+      + destruct Hh as (HB & Hnd & Hle & Hpop).
+        destruct (batch_eq_sequential resolve order t kvs Hc HB Hnd Hle Hpop) as (t1 & ev & ev' & EB & ES & C1).
+        destruct (IH t1 C1) as (t2 & ev2 & R2 & S2 & C2).
+        exists t2, (ev' ++ ev2). cbn [run_hist flat_map hop_kvs]. rewrite EB.
+        split; [exact R2|]. split; [|exact C2]. eapply update_seq_app_ok; eassumption.
+  Qed.
+
+  (* HEADLINE with batches: the trie (hence its root hash, every Get) after any
+     two histories with the same final key-value map is the same *)
+  Theorem history_depends_only_on_set hs1 hs2 :
+    Forall hop_ok hs1 -> Forall hop_ok hs2 ->
+    (forall k, final_map (flat_map hop_kvs hs1) k = final_map (flat_map hop_kvs hs2) k) ->
+    exists t, run_hist NEmpty hs1 = TOk t /\ run_hist NEmpty hs2 = TOk t /\ canon t /\
+      (forall k, bytes_key k ->
+         trie_get resolve t k = TOk (final_map (flat_map hop_kvs hs1) k, t, false, [])).
+  Proof.
+    intros H1 H2 He.
+    destruct (history_eq_sequential hs1 H1 NEmpty (or_introl eq_refl)) as (t1 & e1 & R1 & S1 & _).
+    destruct (history_eq_sequential hs2 H2 NEmpty (or_introl eq_refl)) as (t2 & e2 & R2 & S2 & _).
+    destruct (root_depends_only_on_set resolve _ _ (hist_bytes_ops _ H1) (hist_bytes_ops _ H2) He)
+      as (t & f1 & f2 & F1 & F2 & C & _ & G).
+    rewrite F1 in S1. rewrite F2 in S2. inversion S1; inversion S2; subst.
+    exists t2. auto.
+  Qed.
+
+  (* ---------------------------------------------------------------- statements at wfn level, for Properties/C06.v *)
+
+  Theorem get_total fuel n path key :
+    (length key < fuel)%nat -> wfn n -> valid_key key ->
+    get resolve fuel n path key = TOk (lk n key, n, false, []).
+  Proof. intros Hf Hw Hk. apply get_lk; [assumption|right; auto]. Qed.
+
+  Theorem insert_total fuel n prefix key v :
+    (length key < fuel)%nat -> wfn n -> valid_key key ->
+    exists d n' ev,
+      insert resolve fuel n prefix key (NValue v) = TOk (d, n', ev) /\
+      wfn n' /\ lk n' key = Some v /\ (forall k', k' <> key -> lk n' k' = lk n k') /\
+      (d = false <-> lk n key = Some v) /\ (d = false -> n' = n) /\
+      (canon n -> can n').
+  Proof.
+    intros Hf Hw Hk.
+    destruct (insert_spec resolve fuel n prefix key v Hf (or_intror (conj Hk Hw)))
+      as (d & n' & ev & E & P1 & P2 & P3 & P4 & P5 & P6 & P7 & _).
+    exists d, n', ev. split; [exact E|].
+    split; [destruct P1 as [[-> _]|[_ ?]]; [destruct Hk|assumption]|].
+    repeat (split; [assumption|]). intros Hc.
+    destruct (P7 (or_intror (conj Hk Hc))) as [[-> _]|[_ [?|?]]]; [destruct Hk|congruence|assumption].
+  Qed.
+
+  Theorem delete_total fuel n prefix key :
+    (length key < fuel)%nat -> wfn n -> valid_key key ->
+    exists d n' ev,
+      delete resolve fuel n prefix key = TOk (d, n', ev) /\
+      wfn n' /\ lk n' key = None /\ (forall k', k' <> key -> lk n' k' = lk n k') /\
+      (d = false <-> lk n key = None) /\ (d = false -> n' = n) /\
+      (canon n -> canon n').
+  Proof.
+    intros Hf Hw Hk.
+    destruct (delete_spec resolve fuel n prefix key Hf (or_intror (conj Hk Hw)))
+      as (d & n' & ev & E & Q1 & Q2 & Q3 & Q4 & Q5 & Q6 & _).
+    exists d, n', ev. split; [exact E|].
+    split; [destruct Q1 as [[-> _]|[_ ?]]; [destruct Hk|assumption]|].
+    repeat (split; [assumption|]). intros Hc.
+    destruct (Q6 (or_intror (conj Hk Hc))) as [[-> _]|[_ ?]]; [destruct Hk|assumption].
+  Qed.
+End Hist.
+
+(* in-memory tries: no hash node anywhere, every full node has 17 children *)
+Inductive mem : node -> Prop :=
+| mem_empty : mem NEmpty
+| mem_value v : mem (NValue v)
+| mem_short k c : mem c -> mem (NShort k c)
+| mem_full cs : length cs = 17%nat -> (forall i c, nth_error cs i = Some c -> mem c) -> mem (NFull cs).
+
+Lemma wfn_mem n : wfn n -> mem n.
+Proof.
+  induction n as [| |k c IH|cs IH|] using node_ind'; intros H; inversion H; subst; try constructor; auto.
+  - constructor.
+  - intros i c Hc. rewrite Forall_forall in IH. specialize (IH c (nth_error_In _ _ Hc)).
+    destruct (Nat.lt_ge_cases i 16) as [Hi|Hi]; [eauto|].
+    assert (i = 16%nat).
+    { assert ((i < length cs)%nat) by (apply nth_error_Some; congruence). lia. }
+    subst. destruct (H3 _ Hc) as [->|[v ->]]; constructor.
+Qed.
+
+(* ------------------------------------------------------------------ the root hash of a canonical trie is defined *)
+
+Lemma valid_key_snoc k : valid_key k -> exists p, k = p ++ [16].
+Proof.
+  induction k as [|x k IH]; intros Hk; [destruct Hk|].
+  apply valid_key_cons in Hk as [[-> ->]|[_ Hk]]; [exists []; reflexivity|].
+  destruct (IH Hk) as [p ->]. exists (x :: p). reflexivity.
+Qed.
+
+Lemma nibbles_forallb k : nibbles k -> forallb nibbleb k = true.
+Proof.
+  intros Hn. apply forallb_forall. intros x Hx. unfold nibbles in Hn. rewrite Forall_forall in Hn.
+  specialize (Hn x Hx). unfold nibbleb. lia.
+Qed.
+
+Section HashTotal.
+  Variable H : list N -> list N.
+
+  (* the loop of encodeFullNode, named *)
+  Fixpoint enc_go (i : nat) (l : list node) : option (list N) :=
+    match l with
+    | [] => Some []
+    | c :: r =>
+        let e :=
+          match c with
+          | NEmpty => Some [128]
+          | _ =>
+              if Nat.eqb i 16 then
+                match c with
+                | NValue [] => Some [128]
+                | NValue v => Some (enc_str v)
+                | _ => None
+                end
+              else
+                match c with
+                | NHash [] => Some [128]
+                | NHash h => Some (write_ref h)
+                | NShort _ _ | NFull _ =>
+                    match node_enc H c with
+                    | Some e => Some (write_ref (ref_of_enc H e))
+                    | None => None
+                    end
+                | _ => None
+                end
+          end in
+        match e, enc_go (S i) r with
+        | Some a, Some b => Some (a ++ b)
+        | _, _ => None
+        end
+    end.
+
+  Lemma node_enc_full cs :
+    node_enc H (NFull cs) =
+    match enc_go 0 cs with Some payload => Some (list_wrap payload) | None => None end.
+  Proof. reflexivity. Qed.
+
+  Lemma node_enc_short k c :
+    node_enc H (NShort k c) =
+    match hex_to_compact k with
+    | None => None
+    | Some ck =>
+        let body :=
+          if has_term k then match c with NValue v => Some (enc_str v) | _ => None end
+          else match c with
+               | NHash h => Some (write_ref h)
+               | NShort _ _ | NFull _ =>
+                   match node_enc H c with
+                   | Some e => Some (write_ref (ref_of_enc H e))
+                   | None => None
+                   end
+               | _ => None
+               end in
+        match body with Some b => Some (list_wrap (enc_str ck ++ b)) | None => None end
+    end.
+  Proof. reflexivity. Qed.
+
+  Lemma enc_go_total : forall l i,
+    (forall j c, nth_error l j = Some c ->
+       (i + j <= 16)%nat /\
+       ((i + j < 16)%nat -> c = NEmpty \/ (can c /\ exists e, node_enc H c = Some e)) /\
+       ((i + j = 16)%nat -> vslot c)) ->
+    exists p, enc_go i l = Some p.
+  Proof.
+    induction l as [|c r IH]; intros i Hs; [exists []; reflexivity|].
+    destruct (IH (S i)) as [pr Er].
+    { intros j c0 Hj. specialize (Hs (S j) c0 Hj). rewrite Nat.add_succ_r in Hs. exact Hs. }
+    destruct (Hs O c eq_refl) as (Hle & Hlt & Heq). rewrite Nat.add_0_r in *.
+    cbn [enc_go]. rewrite Er.
+    destruct (Nat.eqb_spec i 16) as [->|Ni].
+    - destruct (Heq eq_refl) as [->|[v ->]]; [eexists; reflexivity|]. destruct v; eexists; reflexivity.
+    - destruct (Hlt ltac:(lia)) as [->|[Hc [e Ee]]]; [eexists; reflexivity|].
+      inversion Hc; subst; rewrite Ee; eexists; reflexivity.
+  Qed.
+
+  Lemma node_enc_total n : can n -> exists e, node_enc H n = Some e.
+  Proof.
+    induction n as [| |k c IH|cs IH|] using node_ind'; intros Hc; try solve [inversion Hc].
+    - rewrite node_enc_short. destruct (hex_to_compact_total k) as [ck ->]. cbv zeta.
+      destruct (can_short_inv _ _ Hc) as [[Hk [v ->]]|(Hk & Hne & cs & -> & Hcf)].
+      + destruct (valid_key_snoc _ Hk) as [p ->]. rewrite has_term_app_16. eexists; reflexivity.
+      + rewrite (has_term_nib_false _ (nibbles_forallb _ Hk)). destruct (IH Hcf) as [e ->].
+        eexists; reflexivity.
+    - rewrite node_enc_full. destruct (can_full_inv _ Hc) as (HL & Hch & H16 & _).
+      destruct (enc_go_total cs O) as [p ->]; [|eexists; reflexivity].
+      intros j c Hj. simpl.
+      assert (Hj17 : (j < 17)%nat) by (rewrite <- HL; apply nth_error_Some; congruence).
+      split; [lia|]. split.
+      + intros Hj16. destruct (Hch _ _ Hj Hj16) as [->|Hcc]; [left; reflexivity|right].
+        split; [assumption|]. rewrite Forall_forall in IH. apply (IH c (nth_error_In _ _ Hj) Hcc).
+      + intros ->. apply H16. exact Hj.
+  Qed.
+
+  (* Trie.Hash never panics on a canonical trie *)
+  Theorem hash_root_total t : canon t -> exists h, hash_root H t = Some h.
+  Proof.
+    intros [->|Hc]; [eexists; reflexivity|].
+    destruct (node_enc_total _ Hc) as [e Ee].
+    unfold hash_root, node_ref. inversion Hc; subst; rewrite Ee; eexists; reflexivity.
+  Qed.
+End HashTotal.
+
+(* the root hashes after two histories with the same final map exist and agree,
+   for any hash function *)
+Theorem history_root_hash resolve (H : list N -> list N) hs1 hs2 :
+  Forall hop_ok hs1 -> Forall hop_ok hs2 ->
+  (forall k, final_map (flat_map hop_kvs hs1) k = final_map (flat_map hop_kvs hs2) k) ->
+  exists t1 t2 h, run_hist resolve NEmpty hs1 = TOk t1 /\ run_hist resolve NEmpty hs2 = TOk t2 /\
+    hash_root H t1 = Some h /\ hash_root H t2 = Some h.
+Proof.
+  intros H1 H2 He.
+  destruct (history_depends_only_on_set resolve hs1 hs2 H1 H2 He) as (t & R1 & R2 & C & _).
+  destruct (hash_root_total H t C) as [h Eh]. exists t, t, h. auto.
+Qed.
+
+Lemma canon_wfn_mem t : canon t -> wfn t /\ mem t.
+Proof. intros H. split; [exact (canon_wfn t H)|exact (wfn_mem t (canon_wfn t H))]. Qed.
